@@ -6,13 +6,10 @@ Open Scope string_scope.
 From Cctp Require Import Gen.GenLib Gen.Consts.
 
 (* ---------- C16: the offset constants are the CCTP numbers ---------- *)
+(* the layout itself (offsets, widths, guards) is no longer compared by constant NAME: Gen/CheckCodec.v proves it about the
+   translated Parse / Bytes functions, with the constants resolved by value; here only the protocol numbers the handlers use *)
 Definition expected_ints : list (string * Z) := [
-  ("VersionIndex", 0); ("SourceDomainIndex", 4); ("DestinationDomainIndex", 8); ("NonceIndex", 12); ("SenderIndex", 20);
-  ("RecipientIndex", 52); ("DestinationCallerIndex", 84); ("MessageBodyIndex", 116);
-  ("BurnMsgVersionIndex", 0); ("VersionLen", 4); ("BurnTokenIndex", 4); ("BurnTokenLen", 32); ("MintRecipientIndex", 36);
-  ("MintRecipientLen", 32); ("AmountIndex", 68); ("AmountLen", 32); ("MsgSenderIndex", 100); ("MsgSenderLen", 32);
-  ("BurnMessageLen", 132); ("NobleMessageVersion", 0); ("MessageBodyVersion", 0); ("NobleDomainId", 4);
-  ("DomainBytesLen", 4); ("UsedNonceLen", 8); ("SignatureLength", 65)]%Z.
+  ("NobleMessageVersion", 0); ("MessageBodyVersion", 0); ("NobleDomainId", 4); ("SignatureLength", 65)]%Z.
 
 Lemma constants_are_the_cctp_layout :
   forallb (fun kv => match assoc (fst kv) go_int_consts with Some v => Z.eqb v (snd kv) | None => false end) expected_ints = true.
